@@ -49,6 +49,7 @@ func (s c16Spec) ops(st *c16State) (out []opx) {
 		txnOp(w, []model.Act{{Op: "insert", W: sw("a")}}, false),
 		txnOp(w, []model.Act{{Op: "insert", W: sw("b")}}, false),
 		txnOp(w, []model.Act{{Op: "insert", W: []model.Write{{Col: "n", V: model.Val{N: 1}}}}}, false),
+		txnOp(w, []model.Act{{Op: "insert", W: sw("")}}, false),
 	)
 	rows := firstRows(w, 2)
 	if hi, ok := lastRow(w); ok && len(rows) == 2 && hi != rows[1] {
@@ -57,6 +58,10 @@ func (s c16Spec) ops(st *c16State) (out []opx) {
 	for i, r := range rows {
 		out = append(out, txnOp(w, []model.Act{{Op: "put", Off: r, W: []model.Write{{Col: "s", V: model.Val{S: "a"}}}}}, false))
 		out = append(out, txnOp(w, []model.Act{{Op: "put", Off: r, W: []model.Write{{Col: "s", V: model.Val{S: "b"}}}}}, false))
+		if i == 0 {
+			// the empty string is a value like any other (and sorts first)
+			out = append(out, txnOp(w, []model.Act{{Op: "put", Off: r, W: []model.Write{{Col: "s", V: model.Val{S: ""}}}}}, false))
+		}
 		if i == 0 {
 			out = append(out, txnOp(w, []model.Act{{Op: "put", Off: r, W: []model.Write{{Col: "s", V: model.Val{S: "a"}, Merge: true}}}}, false))
 			// merge, then overwrite, of one row in one transaction (the row ends on the overwrite)
@@ -189,21 +194,21 @@ func init() {
 	eng.Register(&eng.Check{
 		Prop:  "C16",
 		Level: "model_checking",
-		Rule: "every history up to depth d over {insert a / b / without the string, overwrite a / b, concatenating merge, merge+overwrite in one transaction, delete (offset reuse), createSortIndex (between transactions and from inside one that already wrote the column)} on strings over {a,b} " +
+		Rule: "every history up to depth d over {insert a / b / without the string, overwrite a / b, concatenating merge, merge+overwrite in one transaction, delete (offset reuse), createSortIndex (between transactions and from inside one that already wrote the column)} on strings over {a,b,empty} " +
 			"(duplicates forced) in one and several blocks; at every node Ascend runs after each of 10 filter chains (length 0-2) and must visit exactly the selected rows holding a value, once each, " +
 			"values non-decreasing and readers positioned; states = distinct (model state, index present). SCHED: CreateSortIndex beside 1-2 committing transactions in every interleaving up to the preemption bound; at quiescence Ascend is complete and ordered",
 		Assumptions: []string{"only ascending iteration exists in the API"},
 		Budget:      budget(170*time.Second, 28*time.Minute),
 		Bounds: func(tier string) map[string]any {
 			if tier == "quick" {
-				return map[string]any{"depth": "6 (empty), 4 (sparse-3)"}
+				return map[string]any{"depth": "5 (empty), 4 (sparse-3)"}
 			}
-			return map[string]any{"depth": "7 (empty), 5 (sparse-3), 3 (block-edge)"}
+			return map[string]any{"depth": "6 (empty), 5 (sparse-3), 3 (block-edge)"}
 		},
 		Units: func(tier string) (units []eng.Unit) {
-			specs := []c16Spec{{"empty", 6}, {"sparse-3", 4}}
+			specs := []c16Spec{{"empty", 5}, {"sparse-3", 4}}
 			if tier != "quick" {
-				specs = []c16Spec{{"empty", 7}, {"sparse-3", 5}, {"block-edge", 3}}
+				specs = []c16Spec{{"empty", 6}, {"sparse-3", 5}, {"block-edge", 3}}
 			}
 			for _, s := range specs {
 				s := s
